@@ -1,0 +1,34 @@
+//go:build verif
+
+package stream
+
+// Contracts for the line splitter (property C44). Comment-only file, compiled
+// only under the "verif" build tag; "//@" lines are read by govc.
+// Bytes: 10 = LF, 13 = CR.
+
+// The processor's fields are written only by this package; the callback is
+// foreign code that may do anything except write byte slices it was not given
+// (it is handed a string) or the processor itself.
+//@ private LineProcessor
+
+// Every line handed to the callback is free of LF. cbcalls counts callback
+// invocations.
+//@ ghost cbcalls int
+//@ iface LineProcessor.Callback
+//@   params line
+//@   requires[nolf] forall i in 0..len(line) :: line[i] != 10
+//@   modifies cbcalls, wcalls, accepted
+//@   ensures cbcalls == old(cbcalls) + 1
+
+//@ func trimCarriageReturn
+//@   pure
+//@   ensures[prefix] base(result) == base(buffer) && off(result) == off(buffer) && len(result) <= len(buffer) && len(result) + 1 >= len(buffer)
+//@   ensures[trim] len(result) < len(buffer) ==> buffer[len(buffer)-1] == 13
+
+//@ func (*LineProcessor).Write
+//@   requires p != nil
+//@   ensures[all] result1 == nil ==> result0 == len(data)
+//@   ensures[rest] result1 == nil ==> forall i in 0..len(p.buffer) :: p.buffer[i] != 10
+//@   ensures[reject] result1 != nil ==> result0 == 0 && cbcalls == old(cbcalls) && p.buffer == old(p.buffer)
+//@   loop 1 invariant[suffix] 0 <= processed && processed <= len(p.buffer) && base(remaining) == base(p.buffer) && off(remaining) == off(p.buffer) + processed && len(remaining) == len(p.buffer) - processed
+//@   loop 1 invariant[progress] (processed == 0 <==> cbcalls == pre(cbcalls)) && cbcalls >= pre(cbcalls)
